@@ -8,9 +8,12 @@
 
    doc_err are the documented errors (the JSONSerializationError subclasses a deserialisation may raise):
      EMissing            the tag is absent or empty/falsy
-     EInvalidFormat      the tag is not a string "<module>.<name>" with a non-empty, non-relative module part
-     EUnknownModule      the module part cannot be imported
-     EClassNotFound      the module has no such attribute, or the attribute is not a class
+     EInvalidFormat      the tag is not a string "<owner>.<name>" with a non-empty, non-relative owner part
+     EUnknownModule      the owner part is not "<importable module>[.<class>.<class>...]"
+     EClassNotFound      the owner has no such attribute, or the attribute is not a class
+   The tag format is the QUALIFIED name (since 70c605d): "<module>.<qualified class name>", so the part before the last dot
+   names a module or a class nested in classes of a module.  The module is the LONGEST importable dotted prefix of the owner
+   part; the names after it are followed as attributes through classes only.
      ENotDeserializable  the class is neither a SubclassJSONSerializer (with a _from_json) nor registered *)
 From Coq Require Import List ZArith Bool.
 From Krrood Require Import Base.Sx Json.JsonVal.
@@ -61,10 +64,31 @@ Definition module_part_ok (m : str) : bool :=
 Section Spec.
   Variables (Mod C D : Type).
   Variable find_module : str -> option Mod.
-  Variable attribute : Mod -> str -> option C.
+  Variable attribute : owner Mod C -> str -> option C.   (* attribute of a module or of a class *)
   Variable is_class : C -> bool.
   Variable deserialisable_subclass : C -> bool.   (* derives from SubclassJSONSerializer and implements _from_json *)
   Variable registered : C -> option D.
+
+  (* follow names as attributes, through classes only *)
+  Fixpoint through_classes (o : owner Mod C) (names : list str) : option (owner Mod C) :=
+    match names with
+    | [] => Some o
+    | n :: r => match attribute o n with
+                | Some c => if is_class c then through_classes (OCls c) r else None
+                | None => None
+                end
+    end.
+  (* the longest importable prefix of at most k dotted names, then the remaining names through classes *)
+  Fixpoint owner_from (names : list str) (k : nat) : option (owner Mod C) :=
+    match k with
+    | O => None
+    | S k' => match find_module (join_dots (firstn k names)) with
+              | Some m => through_classes (OMod m) (skipn k names)
+              | None => owner_from names k'
+              end
+    end.
+  Definition owner_of (owner_part : str) : option (owner Mod C) :=
+    let names := split_dots owner_part in owner_from names (length names).
 
   (* [tag]: None = the document has no type-tag key *)
   Definition resolve_spec (tag : option jv) : resolution C D :=
@@ -78,10 +102,10 @@ Section Spec.
             | None => RError EInvalidFormat
             | Some (m, n) =>
                 if negb (module_part_ok m) then RError EInvalidFormat else
-                match find_module m with
+                match owner_of m with
                 | None => RError EUnknownModule
-                | Some md =>
-                    match attribute md n with
+                | Some o =>
+                    match attribute o n with
                     | None => RError EClassNotFound
                     | Some c =>
                         if negb (is_class c) then RError EClassNotFound
@@ -110,11 +134,11 @@ Definition resolution_sx (r : resolution Z Z) : sx :=
 Section Views.
   Variables (Mod C : Type).
   Variable import_module : str -> M Mod.
-  Variable getattr_ : Mod -> str -> M C.
+  Variable getattr_ : owner Mod C -> str -> M C.
   Variable issubclass_ser : C -> M bool.
   Variable implements_from_json : C -> bool.
   Definition view_module (s : str) : option Mod := match import_module s with Ok m => Some m | Exn _ => None end.
-  Definition view_attr (m : Mod) (n : str) : option C := match getattr_ m n with Ok c => Some c | Exn _ => None end.
+  Definition view_attr (o : owner Mod C) (n : str) : option C := match getattr_ o n with Ok c => Some c | Exn _ => None end.
   Definition view_subclass (c : C) : bool := match issubclass_ser c with Ok b => b | Exn _ => false end.
   Definition view_deserialisable (c : C) : bool := view_subclass c && implements_from_json c.
 End Views.
@@ -127,7 +151,7 @@ Record rcase : Type := {
   rc_tag : jv;                                (* its value *)
   rc_extra : list (str * jv);                 (* the other keys of the document *)
   rc_imports : list (str * M Z);              (* module name asked -> module id | exception *)
-  rc_attrs : list (Z * str * M Z);            (* (module id, attribute name) -> object id | exception *)
+  rc_attrs : list (Z * str * M Z);            (* (id of the module or class asked, attribute name) -> object id | exception *)
   rc_types : list Z;                          (* object ids that are classes *)
   rc_subs : list (Z * M bool);                (* issubclass(obj, SubclassJSONSerializer) *)
   rc_regs : list (Z * Z);                     (* class id -> registered deserialiser id *)
@@ -144,7 +168,9 @@ Definition memz (l : list Z) (k : Z) : bool := existsb (Z.eqb k) l.
 
 (* a question the harness did not anticipate gets the answer -1 / KeyError, which no real run produces *)
 Definition rc_import (c : rcase) (s : str) : M Z := match assoc_str (rc_imports c) s with Some r => r | None => Exn KeyError end.
-Definition rc_getattr (c : rcase) (m : Z) (n : str) : M Z := match assoc_zs (rc_attrs c) m n with Some r => r | None => Exn KeyError end.
+Definition owner_id (o : owner Z Z) : Z := match o with OMod m => m | OCls k => k end.   (* one id space for all objects *)
+Definition rc_getattr (c : rcase) (o : owner Z Z) (n : str) : M Z :=
+  match assoc_zs (rc_attrs c) (owner_id o) n with Some r => r | None => Exn KeyError end.
 Definition rc_issub (c : rcase) (o : Z) : M bool := match assoc_z (rc_subs c) o with Some r => r | None => Exn KeyError end.
 Definition spec_rcase (c : rcase) : sx :=
   match resolve_spec Z Z Z
